@@ -119,7 +119,7 @@ func isASCIIPredicate(f *ssa.Function) bool {
 			}
 		}
 	}
-	if !sawCmp {
+	if !sawCmp || !visitsEveryOctetOnce(f) {
 		return false
 	}
 	// every 'return true' is outside the loop body's taken edge: accept when exactly one return true exists
@@ -324,7 +324,10 @@ func (e *echoCtx) paramSafe(fn *ssa.Function, pr *ssa.Parameter, depth int) (boo
 		if pk := outermost(c).Pkg; pk == nil || !inUniverse(pk.Pkg.Path()) {
 			continue
 		}
-		if ed.Site.Common().StaticCallee() != fn {
+		if sc := ed.Site.Common().StaticCallee(); sc != fn && sc != e.p.orig(fn) {
+			if closureOnlyCalledDirectly(e.p.orig(fn)) {
+				continue // a function literal that is only ever called by name: the class-hierarchy edge is spurious
+			}
 			return false, "parameter of a dynamically called function"
 		}
 		n++
@@ -453,5 +456,138 @@ func ruleEcho(p *Program, r *Result) {
 	}
 	if n == 0 {
 		r.undecided("R-ECHO", "reply-text", "-", "no reply text setter call found")
+	}
+}
+
+// visitsEveryOctetOnce: f(s string) has exactly one loop; its index starts at 0, goes up by one, and the loop is
+// left either by the index reaching len(s) or by a return from the body; every indexing of s in the function
+// is s[index] inside that loop. (A word-at-a-time or strided scan is not this shape and is not taken for an
+// exact 'all octets are ASCII' test.)
+func visitsEveryOctetOnce(f *ssa.Function) bool {
+	if len(f.Params) != 1 {
+		return false
+	}
+	s := f.Params[0]
+	var head *ssa.BasicBlock
+	var idx *ssa.Phi
+	for _, b := range f.Blocks {
+		iff, ok := b.Instrs[len(b.Instrs)-1].(*ssa.If)
+		if !ok || !blockReachFromSelf(b) {
+			continue
+		}
+		bo, ok := iff.Cond.(*ssa.BinOp)
+		if !ok || bo.Op != token.LSS {
+			continue
+		}
+		lc, ok := bo.Y.(*ssa.Call)
+		if !ok {
+			continue
+		}
+		if bi, ok := lc.Common().Value.(*ssa.Builtin); !ok || bi.Name() != "len" || lc.Common().Args[0] != ssa.Value(s) {
+			continue
+		}
+		var ph *ssa.Phi
+		switch x := bo.X.(type) {
+		case *ssa.Phi:
+			ph = x
+		case *ssa.BinOp: // range form: index+1 < len
+			if p2, ok := x.X.(*ssa.Phi); ok && x.Op == token.ADD {
+				if c, okc := constInt(x.Y); okc && c == 1 {
+					ph = p2
+				}
+			}
+		}
+		if ph == nil || !isRangeIndexPhi(ph) {
+			continue
+		}
+		if head != nil {
+			return false // two loops over s
+		}
+		head, idx = b, ph
+	}
+	if head == nil {
+		return false
+	}
+	// start value 0 (or -1 for the range form)
+	for _, e := range idx.Edges {
+		if c, ok := constInt(e); ok && c != 0 && c != -1 {
+			return false
+		}
+	}
+	// no other loop
+	for _, b := range f.Blocks {
+		if blockReachFromSelf(b) && !(b == head || blockReach(head, nil)[b] && blockReach(b, nil)[head]) {
+			return false
+		}
+	}
+	// every indexing of s uses the loop index (or index+1 in the range form)
+	n := 0
+	for _, b := range f.Blocks {
+		for _, in := range b.Instrs {
+			var base, ix ssa.Value
+			switch x := in.(type) {
+			case *ssa.Lookup:
+				base, ix = x.X, x.Index
+			case *ssa.IndexAddr:
+				base, ix = x.X, x.Index
+			case *ssa.Index:
+				base, ix = x.X, x.Index
+			case *ssa.Slice:
+				if x.X == ssa.Value(s) {
+					return false
+				}
+				continue
+			default:
+				continue
+			}
+			if base != ssa.Value(s) {
+				continue
+			}
+			n++
+			if ix != ssa.Value(idx) {
+				if bo, ok := ix.(*ssa.BinOp); !ok || bo.Op != token.ADD || bo.X != ssa.Value(idx) {
+					return false
+				} else if c, okc := constInt(bo.Y); !okc || c != 1 {
+					return false
+				}
+			}
+		}
+	}
+	return n == 1
+}
+
+// ruleASCIIPredicates (C02): the predicates the text validators use for 'all octets are ASCII' are exact: every
+// function of the root package of type func(string) bool that compares octets with 127 has the one-loop shape.
+func ruleASCIIPredicates(p *Program, r *Result) {
+	n := 0
+	for _, fn := range p.FuncsIn(func(path string) bool { return path == modPath }) {
+		if p.isTestFile(fn.Pos()) || fn.Signature.Recv() != nil || fn.Signature.Params().Len() != 1 || fn.Signature.Results().Len() != 1 {
+			continue
+		}
+		if b, ok := fn.Signature.Params().At(0).Type().Underlying().(*types.Basic); !ok || b.Kind() != types.String {
+			continue
+		}
+		if b, ok := fn.Signature.Results().At(0).Type().Underlying().(*types.Basic); !ok || b.Kind() != types.Bool {
+			continue
+		}
+		// is it used by a Validate method?
+		used := false
+		if node := p.cgNode(fn); node != nil {
+			for _, e := range node.In {
+				if e.Caller.Func != nil && e.Caller.Func.Name() == "Validate" {
+					used = true
+				}
+			}
+		}
+		if !used {
+			continue
+		}
+		n++
+		r.cond(isASCIIPredicate(fn), "R-ASCII", fnKey(fn)+":exact", p.Pos(fn.Pos()),
+			fnKey(fn)+" is true exactly when every octet of its argument is at most 127: one loop over every index, false on the first larger octet, true after the loop",
+			fnKey(fn)+" is used by field validators as the 'all octets are ASCII' test but is not the plain loop over every octet (s[i] > 127 -> false): octets it does not look at pass validation, so an unrepresentable value is encoded instead of refused")
+	}
+	if n == 0 {
+		r.undecided("R-ASCII", "predicates", "-", "no func(string) bool used by a Validate method was found")
 	}
 }
